@@ -23,6 +23,7 @@ CONSTANTS
   Acts,        \* enabled action families, subset of ActNames
   ObsKinds,    \* which read APIs are rendered into Obs
   Limits,      \* page limits used by Obs (0 = unlimited)
+  Writable,    \* dataset names that StoreBatch / ExecTxn may write to (jobs write to the others)
   Precreated,  \* TRUE iff the configuration starts from InitCreated (told to the harness in the header)
   Fan,         \* successors kept per state by NextSample (sampled deep exploration)
   Readers      \* reader ids (token-carrying feed readers), each [ds, lo, lim]
@@ -199,7 +200,7 @@ Log(r) == hist' = Append(hist, r)
 Steps == Len(hist)
 
 StoreBatch(n, b) ==
-  /\ "store" \in Acts /\ Exists(n)
+  /\ "store" \in Acts /\ Exists(n) /\ n \in Writable
   /\ LET i == dsInc[n]
          r == Apply(feed[i], nextPos[i], b, clock + 1)
      IN /\ feed' = [feed EXCEPT ![i] = r[1]]
@@ -212,6 +213,7 @@ StoreBatch(n, b) ==
 \* a transaction writes one element to each of two datasets at one instant
 ExecTxn(n1, x1, n2, x2) ==
   /\ "txn" \in Acts /\ Exists(n1) /\ Exists(n2) /\ DsIdx(n1) < DsIdx(n2)
+  /\ n1 \in Writable /\ n2 \in Writable
   /\ LET i1 == dsInc[n1]
          i2 == dsInc[n2]
          r1 == Apply(feed[i1], nextPos[i1], <<x1>>, clock + 1)
@@ -323,7 +325,7 @@ NoBk == [taken |-> FALSE]
 Backup ==
   /\ "backup" \in Acts
   /\ hist # <<>>
-  /\ IF hist = <<>> THEN FALSE ELSE hist[Len(hist)].a # "backup"
+  /\ IF bk.taken THEN bk.runs < 4 ELSE TRUE      \* idle runs (backup right after backup) included
   /\ bk' = [taken |-> TRUE, runs |-> (IF bk.taken THEN bk.runs + 1 ELSE 1), foreign |-> FALSE,
             clock |-> clock, dsInc |-> dsInc, deletedInc |-> deletedInc, feed |-> feed]
   /\ Log([a |-> "backup", obs |-> Obs])
@@ -366,8 +368,8 @@ InitCreated ==
 
 Next ==
   /\ Steps < MaxSteps
-  /\ \/ \E n \in DsName, b \in Batches : StoreBatch(n, b)
-     \/ \E n1, n2 \in DsName, x1, x2 \in Ent \X CId : ExecTxn(n1, x1, n2, x2)
+  /\ \/ ("store" \in Acts /\ \E n \in DsName, b \in Batches : StoreBatch(n, b))
+     \/ ("txn" \in Acts /\ \E n1, n2 \in DsName, x1, x2 \in Ent \X CId : ExecTxn(n1, x1, n2, x2))
      \/ Tick
      \/ \E n \in DsName : CreateDs(n) \/ DeleteDs(n) \/ Compact(n)
      \/ \E n, m \in DsName : RenameDs(n, m)
@@ -385,8 +387,9 @@ RE(S) == {RandomElement(IF Steps >= 0 THEN S ELSE {})}   \* state-level on purpo
 DeadNames == DsName \ LiveNames
 KindsNow ==
   { k \in Acts :
-      \/ k \in {"store", "delete", "compact", "dup"} /\ LiveNames # {}
-      \/ k = "txn" /\ Cardinality(LiveNames) >= 2
+      \/ k \in {"delete", "compact", "dup"} /\ LiveNames # {}
+      \/ k = "store" /\ LiveNames \cap Writable # {}
+      \/ k = "txn" /\ Cardinality(LiveNames \cap Writable) >= 2
       \/ k = "create" /\ DeadNames # {} /\ nextInc <= MaxInc
       \/ k = "rename" /\ LiveNames # {} /\ DeadNames # {}
       \/ k = "tick"
@@ -400,8 +403,8 @@ NextSample ==
   /\ KindsNow # {}
   /\ \E j \in 1..Fan :
       \E kind \in RE(KindsNow) :
-        \/ kind = "store" /\ \E n \in RE(LiveNames), b \in RE(Batches) : StoreBatch(n, b)
-        \/ kind = "txn" /\ \E n1 \in RE(LiveNames) : \E n2 \in RE(LiveNames \ {n1}) :
+        \/ kind = "store" /\ \E n \in RE(LiveNames \cap Writable), b \in RE(Batches) : StoreBatch(n, b)
+        \/ kind = "txn" /\ \E n1 \in RE(LiveNames \cap Writable) : \E n2 \in RE((LiveNames \cap Writable) \ {n1}) :
                              \E x1 \in RE(Ent \X CId), x2 \in RE(Ent \X CId) :
                                IF DsIdx(n1) < DsIdx(n2) THEN ExecTxn(n1, x1, n2, x2) ELSE ExecTxn(n2, x2, n1, x1)
         \/ kind = "tick" /\ Tick
